@@ -112,9 +112,10 @@ Qed.
 
 (* ------------------------------------------------------ well-formed states *)
 (* established by PEventListenerDispatcher.__init__ and preserved by every
-   step: the collected result never exceeds the announced length *)
+   step: the collected result never exceeds the announced length, and nothing
+   is collected before a length was announced *)
 Definition wf (s : listener) : Prop :=
-  match l_rlen s with Some n => zlen (l_result s) <= n | None => True end.
+  match l_rlen s with Some n => zlen (l_result s) <= n | None => l_result s = [] end.
 
 Definition rank (s : listener) : nat :=
   match l_state s, l_rlen s with
@@ -124,21 +125,21 @@ Definition rank (s : listener) : nat :=
   | _, _ => 1
   end.
 
-Section Proofs.
-Variable h : handler.
-Variable maxdig : Z.
+Lemma dec_val_acc_nonneg l a : forallb is_digit l = true -> 0 <= a ->
+  0 <= fold_left (fun a c => a * 10 + (c - 48)) l a.
+Proof.
+  revert a; induction l as [|c l IH]; intros a H Ha; simpl in *; [assumption|].
+  apply andb_true_iff in H. destruct H as [Hc Hl]. apply IH; [assumption|].
+  unfold is_digit in Hc. lia.
+Qed.
 
-Notation step1 := (step1 h maxdig).
-Notation run := (run h maxdig).
-Notation feed := (feed h maxdig).
+Lemma dec_val_nonneg l : is_digits l = true -> 0 <= dec_val l.
+Proof.
+  intros H. unfold dec_val. apply dec_val_acc_nonneg; [|lia].
+  unfold is_digits in H. destruct l; [discriminate | assumption].
+Qed.
 
-Lemma run_S f s :
-  run (S f) s =
-  let '(s', o, again) := step1 s in
-  if again && nonempty (l_buf s') then let '(s'', o') := run f s' in (s'', o ++ o') else (s', o).
-Proof. reflexivity. Qed.
-
-(* what one activation does to the BUSY/collecting state, spelled out *)
+(* what one activation does in the BUSY/collecting state *)
 Definition collect (n : Z) (res buf : bytes) : bytes * bytes :=
   if n - zlen res =? 0 then (res, buf)
   else (res ++ py_upto (n - zlen res) buf, py_from (n - zlen res) buf).
@@ -156,24 +157,547 @@ Proof.
   rewrite zlen_app, py_upto_len by lia. intros K. apply py_from_all. lia.
 Qed.
 
+Section Proofs.
+Variable h : handler.
+Variable maxdig : Z.
+
+Notation step1 := (step1 h maxdig).
+Notation run := (run h maxdig).
+Notation feed := (feed h maxdig).
+
+Lemma run_S f s :
+  run (S f) s =
+  let '(s', o, again) := step1 s in
+  if again && nonempty (l_buf s') then let '(s'', o') := run f s' in (s'', o ++ o') else (s', o).
+Proof. reflexivity. Qed.
+
+(* step1 on the collecting state, in terms of collect *)
+Lemma step1_collect c buf n res e cl :
+  step1 (mkL BUSY (c :: buf) (Some n) res e cl) =
+  let '(res1, buf1) := collect n res (c :: buf) in
+  if n - zlen res1 =? 0 then
+    match h e res1 with
+    | HOk => (mkL ACK buf1 None [] None cl, [OProcessed e; OState ACK], true)
+    | HReject => (mkL ACK buf1 None [] None cl, [OState ACK; ORejected e], true)
+    | HRaise => (mkL UNKNOWN buf1 None [] None cl, [OState UNKNOWN; ORejected e], true)
+    end
+  else (mkL BUSY buf1 (Some n) res1 e cl, [], true).
+Proof. reflexivity. Qed.
+
+Lemma step1_nil st rl res e cl :
+  step1 (mkL st [] rl res e cl) = (mkL st [] rl res e cl, [], false).
+Proof. reflexivity. Qed.
+
+Lemma step1_unknown c buf rl res e cl :
+  step1 (mkL UNKNOWN (c :: buf) rl res e cl) = (mkL UNKNOWN [] rl res e cl, [], false).
+Proof. reflexivity. Qed.
+
+Lemma step1_ready c buf rl res e cl :
+  step1 (mkL READY (c :: buf) rl res e cl) = (mkL UNKNOWN [] rl res None cl, [OState UNKNOWN], false).
+Proof. reflexivity. Qed.
+
+Lemma step1_ack c buf rl res e cl :
+  step1 (mkL ACK (c :: buf) rl res e cl) =
+  if zlen (c :: buf) <? Z.of_nat ready_len then (mkL ACK (c :: buf) rl res e cl, [], false)
+  else if starts_with READY_TOKEN (c :: buf) then
+    (mkL READY (skipn ready_len (c :: buf)) rl res None cl, [OState READY], true)
+  else (mkL UNKNOWN [] rl res None cl, [OState UNKNOWN], true).
+Proof. reflexivity. Qed.
+
+Definition good_line (line : bytes) : bool :=
+  starts_with RESULT_START line && is_digits (skipn result_start_len line) &&
+  digits_ok maxdig (skipn result_start_len line).
+
+Lemma step1_busy_none c buf res e cl :
+  step1 (mkL BUSY (c :: buf) None res e cl) =
+  match find_nl (c :: buf) with
+  | None => (mkL BUSY (c :: buf) None res e cl, [], false)
+  | Some pos =>
+    if good_line (firstn pos (c :: buf)) then
+      (mkL BUSY (skipn (S pos) (c :: buf))
+           (Some (dec_val (skipn result_start_len (firstn pos (c :: buf))))) res e cl, [], true)
+    else (mkL UNKNOWN [] None res None cl, [OState UNKNOWN; ORejected e], false)
+  end.
+Proof. reflexivity. Qed.
+
+Lemma good_line_nonneg line : good_line line = true -> 0 <= dec_val (skipn result_start_len line).
+Proof.
+  unfold good_line. intros E.
+  apply andb_true_iff in E. destruct E as [E _]. apply andb_true_iff in E. destruct E as [_ E].
+  apply dec_val_nonneg; assumption.
+Qed.
+
+Opaque Listener.step1 READY_TOKEN RESULT_START.
+Arguments Listener.run : simpl never.
+
 Lemma step1_wf s : wf s -> wf (fst (fst (step1 s))).
 Proof.
-  destruct s as [st buf rl res e cl]. unfold wf, Listener.step1. simpl.
-  destruct buf as [|c buf]; [auto|].
-  destruct st; simpl; auto.
-  - destruct (zlen (c :: buf) <? Z.of_nat ready_len); simpl; auto.
+  destruct s as [st buf rl res e cl]. unfold wf. simpl.
+  destruct buf as [|c buf]; [rewrite step1_nil; auto|].
+  destruct st.
+  - rewrite step1_ack.
+    destruct (zlen (c :: buf) <? Z.of_nat ready_len); simpl; auto.
     destruct (starts_with READY_TOKEN (c :: buf)); simpl; auto.
-  - destruct rl as [n|]; simpl.
-    + intros H. fold (collect n res (c :: buf)).
+  - rewrite step1_ready; simpl; auto.
+  - destruct rl as [n|].
+    + intros H. rewrite step1_collect.
       pose proof (collect_wf n res (c :: buf) H) as W.
       destruct (collect n res (c :: buf)) as [res1 buf1]. simpl in W.
-      destruct (n - zlen res1 =? 0); [destruct (h e res1); simpl; exact I | simpl; assumption].
-    + intros _. destruct (find_nl (c :: buf)); simpl; auto.
-      match goal with |- context [if ?b then _ else _] => destruct b end; simpl; auto.
-      pose proof (zlen_nonneg res).
-      (* dec_val of a digit string is non-negative, but wf only needs result <= n
-         when the result is empty or already collected: the result buffer is
-         whatever it was; see wf_busy_none below *)
-Abort.
+      destruct (n - zlen res1 =? 0); [destruct (h e res1); reflexivity | simpl; assumption].
+    + intros ->. rewrite step1_busy_none.
+      destruct (find_nl (c :: buf)); simpl; auto.
+      destruct (good_line _) eqn:E; simpl; auto.
+      apply good_line_nonneg in E. rewrite zlen_nil. assumption.
+  - rewrite step1_unknown; simpl; auto.
+Qed.
+
+(* rank never increases, and decreases whenever the recursive call is made *)
+Lemma step1_rank_le s : (rank (fst (fst (step1 s))) <= rank s)%nat.
+Proof.
+  destruct s as [st buf rl res e cl].
+  destruct buf as [|c buf]; [rewrite step1_nil; simpl; lia|].
+  destruct st.
+  - rewrite step1_ack.
+    destruct (zlen (c :: buf) <? Z.of_nat ready_len); [simpl; lia|].
+    destruct (starts_with READY_TOKEN (c :: buf)); unfold rank; simpl; lia.
+  - rewrite step1_ready. unfold rank; simpl; lia.
+  - destruct rl as [n|].
+    + rewrite step1_collect. destruct (collect n res (c :: buf)) as [res1 buf1].
+      destruct (n - zlen res1 =? 0); [destruct (h e res1)|]; unfold rank; simpl; lia.
+    + rewrite step1_busy_none. destruct (find_nl (c :: buf)); [|simpl; lia].
+      destruct (good_line _); unfold rank; simpl; lia.
+  - rewrite step1_unknown. unfold rank; simpl; lia.
+Qed.
+
+Lemma step1_rank_lt s s' o :
+  wf s -> step1 s = (s', o, true) -> l_buf s' <> [] -> (rank s' < rank s)%nat.
+Proof.
+  destruct s as [st buf rl res e cl]. unfold wf; simpl.
+  destruct buf as [|c buf]; [rewrite step1_nil; intros _ H; inversion H|].
+  destruct st.
+  - rewrite step1_ack.
+    destruct (zlen (c :: buf) <? Z.of_nat ready_len); [intros _ H; inversion H|].
+    destruct (starts_with READY_TOKEN (c :: buf)); intros _ H; inversion H; subst; unfold rank; simpl.
+    + lia.
+    + intros K; contradiction K; reflexivity.
+  - rewrite step1_ready. intros _ H; inversion H.
+  - destruct rl as [n|].
+    + intros W. rewrite step1_collect.
+      pose proof (collect_short n res (c :: buf) W) as Sh.
+      destruct (collect n res (c :: buf)) as [res1 buf1]. simpl in Sh.
+      destruct (n - zlen res1 =? 0) eqn:E; [destruct (h e res1)|]; intros H; inversion H; subst;
+        unfold rank; simpl; try lia.
+      intros K. contradiction K. apply Sh. lia.
+    + intros _. rewrite step1_busy_none. destruct (find_nl (c :: buf)); [|intros H; inversion H].
+      destruct (good_line _); intros H; inversion H; subst; unfold rank; simpl; lia.
+  - rewrite step1_unknown. intros _ H; inversion H.
+Qed.
+
+Lemma nonempty_true l : nonempty l = true -> l <> [].
+Proof. destruct l; simpl; congruence. Qed.
+Lemma nonempty_false l : nonempty l = false -> l = [].
+Proof. destruct l; simpl; congruence. Qed.
+
+Lemma rank_pos s : (1 <= rank s)%nat.
+Proof. unfold rank. destruct (l_state s), (l_rlen s); lia. Qed.
+
+(* enough fuel: the result does not depend on it *)
+Lemma run_fuel_irrelevant f1 : forall f2 s,
+  wf s -> (rank s <= f1)%nat -> (rank s <= f2)%nat -> run f1 s = run f2 s.
+Proof.
+  induction f1 as [|f1 IH]; intros f2 s W R1 R2; [pose proof (rank_pos s); lia|].
+  destruct f2 as [|f2]; [pose proof (rank_pos s); lia|].
+  rewrite !run_S. destruct (step1 s) as [[s' o] again] eqn:E.
+  destruct (again && nonempty (l_buf s')) eqn:C; [|reflexivity].
+  apply andb_true_iff in C. destruct C as [-> C]. apply nonempty_true in C.
+  pose proof (step1_rank_lt s s' o W E C) as L.
+  pose proof (step1_wf s W) as W'. rewrite E in W'. simpl in W'.
+  rewrite (IH f2 s') by (assumption || lia). reflexivity.
+Qed.
+
+Lemma run_wf f : forall s, wf s -> wf (fst (run f s)).
+Proof.
+  induction f as [|f IH]; intros s W; [assumption|].
+  rewrite run_S. pose proof (step1_wf s W) as W'.
+  destruct (step1 s) as [[s' o] again]. simpl in W'.
+  destruct (again && nonempty (l_buf s')); [|assumption].
+  specialize (IH s' W'). destruct (run f s'). assumption.
+Qed.
+
+Lemma run_rank_le f : forall s, (rank (fst (run f s)) <= rank s)%nat.
+Proof.
+  induction f as [|f IH]; intros s; [simpl; lia|].
+  rewrite run_S. pose proof (step1_rank_le s) as L.
+  destruct (step1 s) as [[s' o] again]. simpl in L.
+  destruct (again && nonempty (l_buf s')); [|simpl; assumption].
+  specialize (IH s'). destruct (run f s'). simpl in *. lia.
+Qed.
+
+Lemma step1_no_crash s : ~ In OCrash (snd (fst (step1 s))).
+Proof.
+  destruct s as [st buf rl res e cl].
+  destruct buf as [|c buf]; [rewrite step1_nil; simpl; tauto|].
+  destruct st.
+  - rewrite step1_ack.
+    destruct (zlen (c :: buf) <? Z.of_nat ready_len); [simpl; tauto|].
+    destruct (starts_with READY_TOKEN (c :: buf)); simpl; intuition discriminate.
+  - rewrite step1_ready. simpl; intuition discriminate.
+  - destruct rl as [n|].
+    + rewrite step1_collect. destruct (collect n res (c :: buf)) as [res1 buf1].
+      destruct (n - zlen res1 =? 0); [destruct (h e res1)|]; simpl; intuition discriminate.
+    + rewrite step1_busy_none. destruct (find_nl (c :: buf)); [|simpl; tauto].
+      destruct (good_line _); simpl; intuition discriminate.
+  - rewrite step1_unknown. simpl; tauto.
+Qed.
+
+(* RecursionError is impossible: four frames are always enough *)
+Lemma run_no_crash f : forall s, wf s -> (rank s <= f)%nat -> ~ In OCrash (snd (run f s)).
+Proof.
+  induction f as [|f IH]; intros s W R; [pose proof (rank_pos s); lia|].
+  rewrite run_S. pose proof (step1_no_crash s) as N. pose proof (step1_wf s W) as W'.
+  destruct (step1 s) as [[s' o] again] eqn:E. simpl in N, W'.
+  destruct (again && nonempty (l_buf s')) eqn:C; [|assumption].
+  apply andb_true_iff in C. destruct C as [-> C]. apply nonempty_true in C.
+  pose proof (step1_rank_lt s s' o W E C) as L.
+  specialize (IH s' W' ltac:(lia)). destruct (run f s') as [s'' o'']. simpl in *.
+  intros K. apply in_app_or in K. tauto.
+Qed.
+
+(* ------------------------------------------------ fragmentation invariance *)
+Definition seq2 (f : nat) (r : listener * list out) (b : bytes) : listener * list out :=
+  let '(s1, o1) := r in let '(s2, o2) := run f (app_buf s1 b) in (s2, o1 ++ o2).
+
+Definition frag_stmt (f : nat) : Prop :=
+  forall st x rl res e cl b,
+    wf (mkL st x rl res e cl) -> (rank (mkL st x rl res e cl) <= f)%nat ->
+    run f (mkL st (x ++ b) rl res e cl) = seq2 f (run f (mkL st x rl res e cl)) b.
+
+Lemma run_nil f st rl res e cl :
+  run (S f) (mkL st [] rl res e cl) = (mkL st [] rl res e cl, []).
+Proof. rewrite run_S, step1_nil. reflexivity. Qed.
+
+Lemma run_unknown f b rl res e cl :
+  run (S f) (mkL UNKNOWN b rl res e cl) = (mkL UNKNOWN [] rl res e cl, []).
+Proof. destruct b; [apply run_nil|]. rewrite run_S, step1_unknown. reflexivity. Qed.
+
+Lemma wf_buf st x y rl res e cl : wf (mkL st x rl res e cl) -> wf (mkL st y rl res e cl).
+Proof. unfold wf; simpl; auto. Qed.
+
+Lemma frag_same f st x rl res e cl b :
+  step1 (mkL st x rl res e cl) = (mkL st x rl res e cl, [], false) ->
+  run (S f) (mkL st (x ++ b) rl res e cl) = seq2 (S f) (run (S f) (mkL st x rl res e cl)) b.
+Proof.
+  intros E. rewrite (run_S f (mkL st x rl res e cl)), E. simpl.
+  unfold app_buf; simpl. destruct (run _ _). reflexivity.
+Qed.
+
+Lemma frag_dead f s sb rl' res' e' cl' o ag b :
+  step1 s = (mkL UNKNOWN [] rl' res' e' cl', o, ag) ->
+  step1 sb = (mkL UNKNOWN [] rl' res' e' cl', o, ag) ->
+  run (S f) sb = seq2 (S f) (run (S f) s) b.
+Proof.
+  intros E1 E2. rewrite (run_S f s), (run_S f sb), E1, E2. simpl.
+  rewrite andb_false_r. unfold seq2, app_buf; simpl.
+  rewrite run_unknown. rewrite app_nil_r. reflexivity.
+Qed.
+
+Lemma frag_cont f s sb st' x' rl' res' e' cl' o b :
+  frag_stmt f ->
+  wf (mkL st' x' rl' res' e' cl') -> (rank (mkL st' x' rl' res' e' cl') <= f)%nat ->
+  step1 s = (mkL st' x' rl' res' e' cl', o, true) ->
+  step1 sb = (mkL st' (x' ++ b) rl' res' e' cl', o, true) ->
+  run (S f) sb = seq2 (S f) (run (S f) s) b.
+Proof.
+  intros IH W R E1 E2. rewrite (run_S f s), (run_S f sb), E1, E2. simpl.
+  destruct (nonempty x') eqn:NX.
+  - rewrite (nonempty_app_r _ b NX). rewrite (IH st' x' rl' res' e' cl' b W R).
+    pose proof (run_wf f _ W) as W1. pose proof (run_rank_le f (mkL st' x' rl' res' e' cl')) as R1.
+    destruct (run f (mkL st' x' rl' res' e' cl')) as [s1 o1]. simpl in *.
+    assert (F : run f (app_buf s1 b) = run (S f) (app_buf s1 b)).
+    { apply run_fuel_irrelevant.
+      - destruct s1; exact W1.
+      - destruct s1; unfold rank in *; simpl in *; lia.
+      - destruct s1; unfold rank in *; simpl in *; lia. }
+    rewrite F. destruct (run (S f) (app_buf s1 b)). rewrite app_assoc. reflexivity.
+  - apply nonempty_false in NX. subst x'. simpl.
+    unfold app_buf; simpl.
+    destruct (nonempty b) eqn:NB.
+    + assert (F : run f (mkL st' b rl' res' e' cl') = run (S f) (mkL st' b rl' res' e' cl')).
+      { apply run_fuel_irrelevant; [eapply wf_buf; exact W | exact R | unfold rank in *; simpl in *; lia]. }
+      rewrite F. reflexivity.
+    + apply nonempty_false in NB. subst b. rewrite run_nil. rewrite app_nil_r. reflexivity.
+Qed.
+
+Lemma length_ready : length READY_TOKEN = ready_len. Proof. reflexivity. Qed.
+
+Lemma zlen_ge_len x n : Z.of_nat n <= zlen x -> (n <= length x)%nat.
+Proof. unfold zlen. lia. Qed.
+
+Lemma frag_step f : frag_stmt f -> frag_stmt (S f).
+Proof.
+  intros IH st x rl res e cl b W R.
+  destruct x as [|c x0].
+  { (* nothing buffered *)
+    rewrite run_nil. unfold seq2, app_buf. simpl.
+    destruct (run _ _). reflexivity. }
+  destruct st.
+  - (* ACKNOWLEDGED *)
+    destruct (zlen (c :: x0) <? Z.of_nat ready_len) eqn:Short.
+    + apply frag_same. rewrite step1_ack, Short. reflexivity.
+    + assert (Len : (ready_len <= length (c :: x0))%nat) by (apply zlen_ge_len; lia).
+      destruct (starts_with READY_TOKEN (c :: x0)) eqn:Tok.
+      * eapply frag_cont with (st' := READY) (x' := skipn ready_len (c :: x0)) (rl' := rl) (res' := res) (e' := None) (cl' := cl); try exact IH.
+        -- unfold wf in *; simpl in *; exact W.
+        -- unfold rank in *; simpl in *; lia.
+        -- rewrite step1_ack, Short, Tok. reflexivity.
+        -- change ((c :: x0) ++ b) with (c :: (x0 ++ b)). rewrite step1_ack.
+           change (c :: (x0 ++ b)) with ((c :: x0) ++ b).
+           replace (zlen ((c :: x0) ++ b) <? Z.of_nat ready_len) with false
+             by (rewrite zlen_app; pose proof (zlen_nonneg b); lia).
+           rewrite starts_with_app by (rewrite length_ready; exact Len). rewrite Tok.
+           rewrite skipn_app_le by exact Len. reflexivity.
+      * eapply frag_dead.
+        -- rewrite step1_ack, Short, Tok. reflexivity.
+        -- change ((c :: x0) ++ b) with (c :: (x0 ++ b)). rewrite step1_ack.
+           change (c :: (x0 ++ b)) with ((c :: x0) ++ b).
+           replace (zlen ((c :: x0) ++ b) <? Z.of_nat ready_len) with false
+             by (rewrite zlen_app; pose proof (zlen_nonneg b); lia).
+           rewrite starts_with_app by (rewrite length_ready; exact Len). rewrite Tok. reflexivity.
+  - (* READY *)
+    eapply frag_dead; [apply step1_ready | simpl; apply step1_ready].
+  - (* BUSY *)
+    destruct rl as [n|].
+    + (* collecting the result *)
+      unfold wf in W; simpl in W.
+      pose proof (zlen_nonneg res) as Hres. pose proof (zlen_nonneg (c :: x0)) as Hx.
+      pose proof (zlen_cons c x0) as Hc. pose proof (zlen_nonneg x0) as Hx0.
+      destruct (n - zlen res =? 0) eqn:N0.
+      * (* already complete (zero-length result pending) *)
+        destruct (h e res) eqn:Hh.
+        -- eapply frag_cont with (st' := ACK) (x' := c :: x0) (rl' := None) (res' := []) (e' := None) (cl' := cl); try exact IH.
+           ++ unfold wf; reflexivity.
+           ++ unfold rank in *; simpl in *; lia.
+           ++ rewrite step1_collect. unfold collect. rewrite N0, N0, Hh. reflexivity.
+           ++ simpl. rewrite step1_collect. unfold collect. rewrite N0, N0, Hh. reflexivity.
+        -- eapply frag_cont with (st' := ACK) (x' := c :: x0) (rl' := None) (res' := []) (e' := None) (cl' := cl); try exact IH.
+           ++ unfold wf; reflexivity.
+           ++ unfold rank in *; simpl in *; lia.
+           ++ rewrite step1_collect. unfold collect. rewrite N0, N0, Hh. reflexivity.
+           ++ simpl. rewrite step1_collect. unfold collect. rewrite N0, N0, Hh. reflexivity.
+        -- eapply frag_cont with (st' := UNKNOWN) (x' := c :: x0) (rl' := None) (res' := []) (e' := None) (cl' := cl); try exact IH.
+           ++ unfold wf; reflexivity.
+           ++ unfold rank in *; simpl in *; lia.
+           ++ rewrite step1_collect. unfold collect. rewrite N0, N0, Hh. reflexivity.
+           ++ simpl. rewrite step1_collect. unfold collect. rewrite N0, N0, Hh. reflexivity.
+      * destruct (n - zlen res <=? zlen (c :: x0)) eqn:Enough.
+        -- (* the buffer completes the result *)
+           assert (R1 : res ++ py_upto (n - zlen res) (c :: x0) = res ++ py_upto (n - zlen res) ((c :: x0) ++ b))
+             by (rewrite py_upto_app_ge by lia; reflexivity).
+           assert (L1 : n - zlen (res ++ py_upto (n - zlen res) (c :: x0)) =? 0 = true)
+             by (rewrite zlen_app, py_upto_len by lia; lia).
+           destruct (h e (res ++ py_upto (n - zlen res) (c :: x0))) eqn:Hh.
+           ++ eapply frag_cont with (st' := ACK) (x' := py_from (n - zlen res) (c :: x0)) (rl' := None) (res' := []) (e' := None) (cl' := cl); try exact IH.
+              ** unfold wf; reflexivity.
+              ** unfold rank in *; simpl in *; lia.
+              ** rewrite step1_collect. unfold collect. rewrite N0, L1, Hh. reflexivity.
+              ** change ((c :: x0) ++ b) with (c :: (x0 ++ b)). rewrite step1_collect.
+                 change (c :: (x0 ++ b)) with ((c :: x0) ++ b).
+                 unfold collect. rewrite N0, <- R1, L1, Hh. rewrite py_from_app_ge by lia. reflexivity.
+           ++ eapply frag_cont with (st' := ACK) (x' := py_from (n - zlen res) (c :: x0)) (rl' := None) (res' := []) (e' := None) (cl' := cl); try exact IH.
+              ** unfold wf; reflexivity.
+              ** unfold rank in *; simpl in *; lia.
+              ** rewrite step1_collect. unfold collect. rewrite N0, L1, Hh. reflexivity.
+              ** change ((c :: x0) ++ b) with (c :: (x0 ++ b)). rewrite step1_collect.
+                 change (c :: (x0 ++ b)) with ((c :: x0) ++ b).
+                 unfold collect. rewrite N0, <- R1, L1, Hh. rewrite py_from_app_ge by lia. reflexivity.
+           ++ eapply frag_cont with (st' := UNKNOWN) (x' := py_from (n - zlen res) (c :: x0)) (rl' := None) (res' := []) (e' := None) (cl' := cl); try exact IH.
+              ** unfold wf; reflexivity.
+              ** unfold rank in *; simpl in *; lia.
+              ** rewrite step1_collect. unfold collect. rewrite N0, L1, Hh. reflexivity.
+              ** change ((c :: x0) ++ b) with (c :: (x0 ++ b)). rewrite step1_collect.
+                 change (c :: (x0 ++ b)) with ((c :: x0) ++ b).
+                 unfold collect. rewrite N0, <- R1, L1, Hh. rewrite py_from_app_ge by lia. reflexivity.
+        -- (* still short after this buffer: everything is moved to result *)
+           assert (E1 : step1 (mkL BUSY (c :: x0) (Some n) res e cl) =
+                        (mkL BUSY [] (Some n) (res ++ (c :: x0)) e cl, [], true)).
+           { rewrite step1_collect. unfold collect. rewrite N0.
+             rewrite py_upto_all, py_from_all by lia.
+             replace (n - zlen (res ++ c :: x0) =? 0) with false by (rewrite zlen_app; lia).
+             reflexivity. }
+           rewrite (run_S f (mkL BUSY (c :: x0) (Some n) res e cl)), E1. simpl.
+           unfold app_buf; simpl.
+           destruct b as [|d b0].
+           { rewrite app_nil_r, run_nil, run_S, E1. reflexivity. }
+           rewrite (run_S f (mkL BUSY (c :: x0 ++ d :: b0) (Some n) res e cl)).
+           rewrite (run_S f (mkL BUSY (d :: b0) (Some n) (res ++ c :: x0) e cl)).
+           rewrite !step1_collect.
+           change (c :: x0 ++ d :: b0) with ((c :: x0) ++ d :: b0).
+           assert (C : collect n res ((c :: x0) ++ d :: b0) = collect n (res ++ c :: x0) (d :: b0)).
+           { unfold collect. rewrite N0.
+             replace (n - zlen (res ++ c :: x0) =? 0) with false by (rewrite zlen_app; lia).
+             rewrite py_upto_app, py_from_app by lia. rewrite zlen_app.
+             replace (n - (zlen res + zlen (c :: x0))) with (n - zlen res - zlen (c :: x0)) by lia.
+             rewrite <- app_assoc. reflexivity. }
+           rewrite C. destruct (collect n (res ++ c :: x0) (d :: b0)) as [res1 buf1].
+           destruct (n - zlen res1 =? 0); [destruct (h e res1)|];
+             simpl; destruct (nonempty buf1 && true); destruct (nonempty buf1);
+             try destruct (run _ _); reflexivity.
+    + (* waiting for the result line *)
+      destruct (find_nl (c :: x0)) as [pos|] eqn:NL.
+      * pose proof (find_nl_lt _ _ NL) as PL.
+        pose proof (find_nl_app_some _ b _ NL) as NLb.
+        destruct (good_line (firstn pos (c :: x0))) eqn:G.
+        -- eapply frag_cont with (st' := BUSY) (x' := skipn (S pos) (c :: x0)) (rl' := Some (dec_val (skipn result_start_len (firstn pos (c :: x0))))) (res' := res) (e' := e) (cl' := cl); try exact IH.
+           ++ unfold wf in *; simpl in *. rewrite W, zlen_nil. apply good_line_nonneg. exact G.
+           ++ unfold rank in *; simpl in *; lia.
+           ++ rewrite step1_busy_none, NL, G. reflexivity.
+           ++ change ((c :: x0) ++ b) with (c :: (x0 ++ b)). rewrite step1_busy_none.
+              change (c :: (x0 ++ b)) with ((c :: x0) ++ b). rewrite NLb.
+              rewrite firstn_app_lt by lia. rewrite G.
+              rewrite skipn_app_le by lia. reflexivity.
+        -- eapply frag_dead.
+           ++ rewrite step1_busy_none, NL, G. reflexivity.
+           ++ change ((c :: x0) ++ b) with (c :: (x0 ++ b)). rewrite step1_busy_none.
+              change (c :: (x0 ++ b)) with ((c :: x0) ++ b). rewrite NLb.
+              rewrite firstn_app_lt by lia. rewrite G. reflexivity.
+      * apply frag_same. rewrite step1_busy_none, NL. reflexivity.
+  - (* UNKNOWN *)
+    eapply frag_dead; [apply step1_unknown | simpl; apply step1_unknown].
+Qed.
+
+Lemma frag_all f : frag_stmt f.
+Proof.
+  induction f as [|f IH]; [|apply frag_step; exact IH].
+  intros st x rl res e cl b W R. pose proof (rank_pos (mkL st x rl res e cl)). lia.
+Qed.
+
+(* ------------------------------------------------------------- corollaries *)
+Lemma rank_le_4 s : (rank s <= 4)%nat.
+Proof. unfold rank. destruct (l_state s), (l_rlen s); lia. Qed.
+
+Lemma wf_app_buf s d : wf s -> wf (app_buf s d).
+Proof. destruct s; unfold wf; simpl; auto. Qed.
+
+Lemma rank_app_buf s d : rank (app_buf s d) = rank s.
+Proof. destruct s; reflexivity. Qed.
+
+Theorem feed_frag s a b :
+  wf s ->
+  feed s (a ++ b) =
+  let '(s1, o1) := feed s a in let '(s2, o2) := feed s1 b in (s2, o1 ++ o2).
+Proof.
+  intros W. unfold Listener.feed. destruct s as [st buf rl res e cl]. unfold app_buf at 1 2. simpl.
+  rewrite app_assoc. rewrite (frag_all fuel0 st (buf ++ a) rl res e cl b).
+  - reflexivity.
+  - eapply wf_buf; exact W.
+  - pose proof (rank_le_4 (mkL st (buf ++ a) rl res e cl)). unfold fuel0. lia.
+Qed.
+
+Theorem feed_wf s a : wf s -> wf (fst (feed s a)).
+Proof. intros W. apply run_wf. apply wf_app_buf. exact W. Qed.
+
+Lemma wf_fresh : wf fresh_listener.
+Proof. reflexivity. Qed.
+
+(* RecursionError cannot happen, and 4 frames are enough for any input *)
+Theorem feed_no_crash s a : wf s -> ~ In OCrash (snd (feed s a)).
+Proof.
+  intros W. apply run_no_crash; [apply wf_app_buf; exact W|].
+  pose proof (rank_le_4 (app_buf s a)). unfold fuel0. lia.
+Qed.
+
+Theorem feed_depth_4 s a f : wf s -> (4 <= f)%nat -> run f (app_buf s a) = feed s a.
+Proof.
+  intros W F. apply run_fuel_irrelevant; [apply wf_app_buf; exact W| |];
+    pose proof (rank_le_4 (app_buf s a)); unfold fuel0; lia.
+Qed.
+
+(* an empty chunk is the identity on every state a feed leaves behind *)
+Theorem feed_nil_after_feed s a :
+  wf s -> feed (fst (feed s a)) [] = (fst (feed s a), []).
+Proof.
+  intros W. pose proof (feed_frag s a [] W) as F. rewrite app_nil_r in F.
+  destruct (feed s a) as [s1 o1]. simpl. destruct (feed s1 []) as [s2 o2].
+  inversion F as [[E1 E2]]. f_equal.
+  rewrite <- (app_nil_r o1) in E2 at 1. apply app_inv_head in E2. congruence.
+Qed.
+
+(* UNKNOWN is absorbing: whatever arrives is discarded, nothing is emitted *)
+Theorem unknown_absorbing s a :
+  l_state s = UNKNOWN ->
+  feed s a = (mkL UNKNOWN [] (l_rlen s) (l_result s) (l_event s) (l_closed s), []).
+Proof.
+  intros U. destruct s as [st buf rl res e cl]. simpl in U. subst st.
+  unfold Listener.feed, app_buf, fuel0. simpl. apply run_unknown.
+Qed.
+
+(* ---- answers: the event of a BUSY listener is given back (accepted or
+   rejected) exactly once, at the moment the listener leaves BUSY *)
+Definition answers (o : list out) : list (option ev) :=
+  flat_map (fun x => match x with ORejected e => [e] | OProcessed e => [e] | _ => [] end) o.
+
+Lemma answers_app a b : answers (a ++ b) = answers a ++ answers b.
+Proof. unfold answers. apply flat_map_app. Qed.
+
+Definition is_busy (s : listener) : bool := lstate_eqb (l_state s) BUSY.
+
+(* the event slot is empty unless the listener is BUSY *)
+Definition slot_inv (s : listener) : Prop := is_busy s = false -> l_event s = None.
+
+Lemma step1_answers s :
+  let '(s', o, _) := step1 s in
+  answers o = (if is_busy s && negb (is_busy s') then [l_event s] else []) /\
+  (is_busy s' = true -> is_busy s = true /\ l_event s' = l_event s) /\
+  (slot_inv s -> slot_inv s').
+Proof.
+  destruct s as [st buf rl res e cl]. unfold slot_inv, is_busy.
+  destruct buf as [|c buf]; [rewrite step1_nil; simpl; destruct st; simpl; auto|].
+  destruct st.
+  - rewrite step1_ack.
+    destruct (zlen (c :: buf) <? Z.of_nat ready_len); [simpl; auto|].
+    destruct (starts_with READY_TOKEN (c :: buf)); simpl; repeat split; auto; discriminate.
+  - rewrite step1_ready. simpl; repeat split; auto; discriminate.
+  - destruct rl as [n|].
+    + rewrite step1_collect. destruct (collect n res (c :: buf)) as [res1 buf1].
+      destruct (n - zlen res1 =? 0); [destruct (h e res1)|]; simpl; repeat split; auto; discriminate.
+    + rewrite step1_busy_none. destruct (find_nl (c :: buf)); [|simpl; auto].
+      destruct (good_line _); simpl; repeat split; auto; discriminate.
+  - rewrite step1_unknown. simpl; repeat split; auto; discriminate.
+Qed.
+
+Lemma run_answers f : forall s,
+  let '(s', o) := run f s in
+  ~ In OCrash o ->
+  answers o = (if is_busy s && negb (is_busy s') then [l_event s] else []) /\
+  (is_busy s' = true -> is_busy s = true /\ l_event s' = l_event s) /\
+  (slot_inv s -> slot_inv s').
+Proof.
+  induction f as [|f IH]; intros s.
+  - change (run 0 s) with (s, [OCrash]). intros N. contradiction N. left. reflexivity.
+  - rewrite run_S. pose proof (step1_answers s) as A.
+    destruct (step1 s) as [[s1 o1] again].
+    destruct (again && nonempty (l_buf s1)); [|intros _; exact A].
+    specialize (IH s1). destruct (run f s1) as [s2 o2].
+    intros N. destruct A as [A1 [A2 A3]].
+    destruct IH as [B1 [B2 B3]]; [intros K; apply N; apply in_or_app; right; exact K|].
+    rewrite answers_app, A1, B1. split; [|split].
+    + destruct (is_busy s) eqn:Bs, (is_busy s1) eqn:B1', (is_busy s2) eqn:B2'; simpl; auto;
+        try (destruct (A2 eq_refl); congruence); try (destruct (B2 eq_refl); congruence).
+    + intros K. destruct (B2 K) as [K1 K2]. destruct (A2 K1). split; congruence.
+    + auto.
+Qed.
+
+Theorem feed_answers s a :
+  wf s ->
+  let '(s', o) := feed s a in
+  answers o = (if is_busy s && negb (is_busy s') then [l_event s] else []) /\
+  (is_busy s' = true -> is_busy s = true /\ l_event s' = l_event s) /\
+  (slot_inv s -> slot_inv s').
+Proof.
+  intros W. pose proof (feed_no_crash s a W) as N.
+  pose proof (run_answers fuel0 (app_buf s a)) as A. unfold Listener.feed in *.
+  destruct (run fuel0 (app_buf s a)) as [s' o]. simpl in N.
+  destruct s; exact (A N).
+Qed.
 
 End Proofs.
